@@ -17,12 +17,16 @@ def main():
     for a in sys.argv[1:]:
         if a.startswith('--checks'):
             extra = a.split('=', 1)[1].split(',')
+    if '--readme-only' in sys.argv:
+        args = ['__none__']
     ids = args or sorted(d for d in os.listdir(os.path.join(V, 'seeded')) if os.path.isdir(os.path.join(V, 'seeded', d)))
     results = {}
     rc, out = sh('git status --porcelain', REPO)
     if out.strip():
         print('refusing: /repo has uncommitted changes'); sys.exit(2)
     for sid in ids:
+        if sid == '__none__':
+            continue
         d = os.path.join(V, 'seeded', sid)
         meta = json.load(open(os.path.join(d, 'meta.json')))
         checks = extra or meta.get('checks') or [meta['property']]
@@ -37,7 +41,7 @@ def main():
                 lines = [l for l in out.splitlines() if l.startswith('VIOLATION')]
                 res[c] = {'exit': rc, 'violations': lines[:3]}
                 print(sid, c, 'exit', rc, lines[:1])
-            results[sid] = {'property': meta['property'], 'needs': meta.get('needs'), 'checks': res}
+            results[sid] = {'property': meta['property'], 'needs': meta.get('needs'), 'checks': res, 'history': meta.get('history', '')}
         finally:
             sh('git checkout -- .', REPO)
     path = os.path.join(V, 'seeded', 'results.json')
@@ -48,8 +52,8 @@ def main():
         f.write('# Seeded changes and the checks that catch them\n\n'
                 'Each directory holds a change to the library written by an independent sub-agent (given only the property text), '
                 're-validated here: the unedited suite still passes with it, `demo.py` fails with it and passes without it.\n'
-                '`tools/run_seeded.py` applies each patch to /repo, runs the quick check(s), and undoes it.\n\n'
-                '| id | property | needs | check -> result |\n|---|---|---|---|\n')
+                '`tools/run_seeded.py` applies each patch to /repo, runs the quick check(s), and undoes it. The history column says what the check did when the change first arrived: every miss was a weakness of a generator, repaired in the generator; none needed a change of a theorem.\n\n'
+                '| id | property | needs | check -> result (now) | history |\n|---|---|---|---|---|\n')
         for sid in sorted(old):
             r = old[sid]
             if 'error' in r:
@@ -57,7 +61,11 @@ def main():
                 continue
             cs = '; '.join(f"{c}: {'caught (exit 1' + (', no-failing-input-found' if any('no-failing-input-found' in v for v in x['violations']) else ', replay') + ')' if x['exit'] == 1 else 'MISSED (exit %d)' % x['exit']}"
                            for c, x in r['checks'].items())
-            f.write(f"| {sid} | {r['property']} | {(r.get('needs') or '')[:150]} | {cs} |\n")
+            hist = r.get('history') or ''
+            mp = os.path.join(V, 'seeded', sid, 'meta.json')
+            if os.path.exists(mp):
+                hist = json.load(open(mp)).get('history', hist)
+            f.write(f"| {sid} | {r['property']} | {(r.get('needs') or '')[:150]} | {cs} | {hist} |\n")
 
 
 if __name__ == '__main__':
